@@ -233,7 +233,8 @@ def _make_empty_cog(
 
         metas.append(meta)
         im_shape = im_shape.shrink2()
-        if gbox is not None:
+        if gbox is not None and idx < nlevels:
+            # there is no level after the last one (its shape can have a zero side)
             gbox = gbox.zoom_to(im_shape)
 
     meta = metas[0]
